@@ -40,7 +40,8 @@ class MessageContent(Writeable):
                  body: MessageBody) -> None:
         super().__init__()
         self._raw = get_raw(memoryview(data), header._lines, body._lines)
-        self.lines: Final = header.lines + body.lines - 1
+        # (a part may have neither header nor body: not below zero)
+        self.lines: Final = max(0, header.lines + body.lines - 1)
         self.header: Final = header
         self.body: Final = body
 
